@@ -329,6 +329,19 @@ def run(ctx, configs=None):
                         ctx.ob("C04.write-progress", False, "%s calls Write::write on a generic writer and drops the count it returns: with the connection behind it, bytes beyond the current packet boundary are silently lost (use write_all)" % fn_.path,
                                fn=fn_.path, construct="partial-write-generic", where=fn_.where(bbx))
 
+        # ---- a value is part of one message -----------------------------------------------------------------
+        # the connection's flush (and end_packet) closes the packet under construction; a value encoder works in the middle of a row, so
+        # a flush there cuts the row into two messages.  Encoders only append bytes.
+        ctx.rule("C04.no-boundary-in-value", "value encoders never flush or end a packet on the writer they are given")
+        from engines import wire as _wire
+        encs = prog.find(r" as value::encode::ToMysqlValue>::to_mysql_(text|bin)$")
+        for fn_ in encs:
+            cuts = [(bbx, cname(tx["func"])) for bbx, tx in fn_.calls() if "indirect" not in tx["func"] and
+                    (_wire.RX_FLUSH.search(cname(tx["func"])) or _wire.RX_FLUSH.search(tx["func"]["path"]) or _wire.RX_END_PACKET.search(cname(tx["func"])))]
+            ctx.ob("C04.no-boundary-in-value", not cuts, "%s calls %s on its writer: with the connection behind it the row under construction is cut into two messages"
+                   % (fn_.path[:80], cuts[0][1].split("::")[-1] if cuts else ""), fn=fn_.path, construct="boundary-in-value", where=fn_.where(cuts[0][0]) if cuts else None, nontrivial=False)
+        ctx.floor("C04.no-boundary-in-value", "value encoder implementations (%s)" % cfg, len(encs), 44)
+
         # ---- what the library itself tells clients about message sizes ---------------------------------------
         # "a row or value larger than 16 MiB arrives intact" also needs the client to accept it: conformant clients ask
         # `SELECT @@max_allowed_packet` at connect (the library answers that itself) and refuse any larger incoming message.
